@@ -50,6 +50,9 @@ F["F17a"] = ("C03", "structural", {"children": True, "no_exclusions": True},
              [S(0, ("A",)), S(1, ("A",)), {"SetParent": {"slot": 1, "parent": 0}}, *SYNC, {"DelParent": {"slot": 1}}, DES(0), T(), DU(), CF()])
 F["F17b"] = ("C03", "structural", {"children": True, "no_exclusions": True},
              [S(0, ("A",)), S(1, ("A",)), S(2, ("A",)), {"SetParent": {"slot": 2, "parent": 0}}, *SYNC, {"SetParent": {"slot": 2, "parent": 1}}, T(), XM(), DES(0), T(), DU(), CF()])
+F["F23"] = ("C01", "structural", {"refs": True, "no_exclusions": True, "max_size": [60, 1200, 60], "slots": 7},
+            [S(6, ()), S(5, ()), {"SetRef": {"slot": 5, "target": 5}}, T(), S(0, ()), {"SetRef": {"slot": 5, "target": 6}}, T(), T(),
+             {"SetRef": {"slot": 5, "target": 0}}, MARK(6, False), T(), DM(0, 0), DU(0, 2), DU(0, 1), CF()])
 F["F20"] = ("C16", "prespawn", {"vis": 1, "prespawn": True, "no_exclusions": True},
             [{"PreSpawn": {"client": 0, "slot": 0, "kill": False, "gap": False, "early": False}}, VIS(0, 0, False), T(), DU(), CF(), VIS(0, 0, True), T(), DU(), CF()])
 
@@ -57,6 +60,9 @@ for name, (prop, unit, over, steps) in F.items():
     cfg = dict(BASE); cfg.update(over)
     r = {"property": prop, "unit": unit, "finding": name, "case": {"cfg": cfg, "steps": steps}}
     json.dump(r, open(f"/verif/replays/{name}.json", "w"), indent=1)
+    if name == "F23":
+        r2 = dict(r); r2["property"] = "C03"
+        json.dump(r2, open("/verif/replays/F23_c03.json", "w"), indent=1)
 # findings of the non-engine properties (each in its property's own case format)
 OTHER = {
  "F5a": ("C06", "exh2_0_0", {"authorized": False, "chan": 0, "bytes": [1, 1]}),
